@@ -15,6 +15,8 @@
     fresh:<name>                           build_index_from_tree into an empty dir     -> ok|err:<E>
     wd:<p>=<k><cid>/<ctime>/<mtime>/<size>/<res>,…  the working directory now is …    -> ok
     stage:<p> addpath:<p> unstage:<p> rmc:<p> addall clearidx switch:<name>                        -> ok|err:<E>
+    e_create:<p>:<wfile> e_modify:<p>:<wfile> e_chmod:<p>:<wfile> e_delete:<p> e_rmtree:<p> e_mkdir:<p>
+                                           the named working-directory edits (Edit) of the model   -> ok
     status                                 -> S:a=<p,…>|d=…|m=…|u=…|t=…   or err:<E>
     index                                  -> I:<p>=<k><cid>/<ctime>/<mtime>/<size>,…
     files                                  -> W:<p>=<k><cid>,…
@@ -133,6 +135,30 @@ def step (st : St) (tok : String) : St × String :=
   | ["wd", s] =>
     match wd? s with
     | some wd => ({ st with w := { st.w with wd := wd } }, "ok")
+    | none => (st, "bad-arg")
+  | ["e_create", p, f] =>                                   -- named working-directory edits of the quantifier
+    match wd? (p ++ "=" ++ f) with
+    | some [(p, f)] => ({ st with w := applyEdit st.env st.w (.create p f) }, "ok")
+    | _ => (st, "bad-arg")
+  | ["e_chmod", p, f] =>
+    match wd? (p ++ "=" ++ f) with
+    | some [(p, f)] => ({ st with w := applyEdit st.env st.w (.chmod p f.kind f.stat) }, "ok")
+    | _ => (st, "bad-arg")
+  | ["e_modify", p, f] =>
+    match wd? (p ++ "=" ++ f) with
+    | some [(p, f)] => ({ st with w := applyEdit st.env st.w (.modify p f.cid f.stat) }, "ok")
+    | _ => (st, "bad-arg")
+  | ["e_delete", p] =>
+    match bytes? p with
+    | some p => ({ st with w := applyEdit st.env st.w (.delete p) }, "ok")
+    | none => (st, "bad-arg")
+  | ["e_rmtree", p] =>
+    match bytes? p with
+    | some p => ({ st with w := applyEdit st.env st.w (.rmtree p) }, "ok")
+    | none => (st, "bad-arg")
+  | ["e_mkdir", p] =>
+    match bytes? p with
+    | some p => ({ st with w := applyEdit st.env st.w (.mkdir p) }, "ok")
     | none => (st, "bad-arg")
   | ["stage", p] =>
     match bytes? p with
